@@ -51,15 +51,17 @@ def code_facts(path):
 def check_apply(ctx, eng, qual, table, side):
     fi = eng.m.func(qual)
     paths = cm.normal_paths(eng.I.run(fi))
-    bad = []
+    bads = {k: [] for k in table}
     seen = {k: False for k in table}
     for p in paths:
         facts = code_facts(p)
         for code in table:
             if code not in facts:
-                bad.append('a path does not decide %s (the codes must be '
-                           'handled independently of each other)' % code)
+                bads[code].append(
+                    'a path does not decide %s (the codes must be handled '
+                    'independently of each other)' % code)
         for code, targets in table.items():
+            bad = bads[code]
             if not facts.get(code):
                 continue
             seen[code] = True
@@ -70,8 +72,8 @@ def check_apply(ctx, eng, qual, table, side):
                     if len(a) != 2 or not a[0].endswith('.original_value') \
                             or not a[1].endswith('.new_value') or \
                             cm.enum_name(_changes_key(cs[0].args[0])) != code:
-                        bad.append('%s: %s(original_value, new_value) of '
-                                   'that change expected' % (code, attr))
+                        bad.append('%s(original_value, new_value) of '
+                                   'that change expected' % attr)
                     continue
                 ws = [e for e in p.events if e.kind == 'write' and
                       e.attr == attr and e.frame == fi.qual]
@@ -80,38 +82,37 @@ def check_apply(ctx, eng, qual, table, side):
                     loop_events = [e for e in p.events if e.in_loop]
                     its = [e for e in p.events if e.kind == 'iter']
                     if not its:
-                        bad.append('%s: no loop over the streams' % code)
+                        bad.append('no loop over the streams')
                         continue
                     if not loop_events:
                         continue        # zero-iteration path
                     if any(e.kind == 'assume' for e in loop_events):
-                        bad.append('%s: some streams keep the stale %s'
-                                   % (code, attr))
+                        bad.append('some streams keep the stale %s' % attr)
                     it = its[-1].iterable
                     if not (it[0] == 'call' and it[1].endswith('.values')
                             and cm.attr_chain(it[2][0]) == 'self.streams'):
-                        bad.append('%s: loop is not over self.streams'
-                                   % code)
+                        bad.append('loop is not over self.streams')
                 else:
                     ws = [e for e in ws if not e.in_loop and
                           cm.attr_chain(e.base) == owner]
                 if not ws:
-                    bad.append('%s: %s.%s is not refreshed' % (code, owner,
-                                                               attr))
+                    bad.append('%s.%s is not refreshed' % (owner, attr))
                     continue
                 v = ws[-1].value
                 if not (v[0] == 'a' and v[2] == 'new_value' and
                         cm.enum_name(_changes_key(v)) == code):
-                    bad.append('%s: %s.%s set to %s, expected that '
-                               'change\'s new_value' % (code, owner, attr,
+                    bad.append('%s.%s set to %s, expected that '
+                               'change\'s new_value' % (owner, attr,
                                                         cm.show0(v)))
-    for code, s in seen.items():
-        if not s:
-            bad.append('%s is never applied' % code)
-    ctx.ob('COH.apply-map', fi.qual, '%s settings applied at acknowledge'
-           % side, not bad, '; '.join(sorted(set(bad))) or
-           'every cached copy (%s) is refreshed from new_value, each code '
-           'independently' % ', '.join(sorted(table)), node=fi.node)
+    for code in sorted(table):
+        bad = bads[code]
+        if not seen[code]:
+            bad.append('never applied')
+        ctx.ob('COH.apply-map', fi.qual, '%s %s applied at acknowledge'
+               % (side, code), not bad, '; '.join(sorted(set(bad))) or
+               'every cached copy (%s) is refreshed from new_value, '
+               'independently of the other codes' % ', '.join(
+                   '%s.%s' % t for t in table[code]), node=fi.node)
     # changes come from the right Settings object and are returned/used
     src = 'self.remote_settings' if side == 'remote' else \
         'self.local_settings'
